@@ -501,7 +501,16 @@ pub fn ref_verify<G: AffineRepr + 'static>(shape: &Shape, shr: &Rc<RefCell<Share
         P = P + L[j] * (*uj * *uj) + R[j] * (ui * ui);
     }
     let Q: G::Group = B * w;
+    // the state the reference verifier hands back drives this follow-up challenge
+    let mut tail = [0u8; 32];
+    cs.t.challenge_bytes(b"verif-tail", &mut tail);
+    REF_TAIL.with(|t| *t.borrow_mut() = Some(tail));
     (P - Gv[0] * pa - Hv[0] * pb - Q * (pa * pb)).is_zero()
+}
+
+thread_local! {
+    /// follow-up challenge ("verif-tail", 32 bytes) of the most recent reference verification that reached its last step
+    pub static REF_TAIL: RefCell<Option<[u8; 32]>> = RefCell::new(None);
 }
 
 /// Pinned generator derivation of the reference revision:
